@@ -38,6 +38,9 @@ Frames ==
       \* the same inside a transfer: a long first part, then short parts and plain frames
       [] Variant = 7 -> << FrP(2049, 0, P6, 1, 3, 1, [i \in 1..40 |-> i]), Fr(2, 0, P6, 2, <<>>), FrP(2049, 0, P6, 3, 3, 3, <<3>>),
                            FrP(2049, 0, P6, 4, 3, 2, <<2>>), Fr(2, 0, P6, 5, <<>>) >>
+      \* a registration among other frames (whatever a message means to the server, the bytes behind it in the read are still frames)
+      [] Variant = 8 -> << Fr(2, 0, P6, 1, <<>>), Fr(256, 0, P6, 2, [i \in 1..37 |-> i % 7]), Fr(512, 0, P6, 3, <<1, 2, 3>>),
+                           Fr(256, 1, P10, 4, [i \in 1..40 |-> 48 + (i % 10)]), Fr(2, 0, P6, 5, <<>>) >>
 Stream == Concat(Frames)
 Ends == [k \in 0..Len(Frames) |-> Len(Concat(SubSeq(Frames, 1, k)))]
 
